@@ -578,10 +578,42 @@ def engine_sites(nn, mode):
     return out
 
 
+def check_container_casts(r, rule, nn):
+    """Lint, recognisably wrong whatever the surrounding shape: a caller-supplied container of sequences is converted with an explicit element
+    type that is the dtype of another array or a fixed-width string type - numpy string arrays built from lists have the width of their
+    longest element, longer sequences are silently truncated by such a cast."""
+    for q in [x for x in nn.P.functions if x.startswith(MOD)]:
+        s = nn.summary(q)
+        seen = set()
+        pool = [v for e in s.events for v in e.data.values() if isinstance(v, tuple)] + [s.ret]
+        for v in pool:
+            for x in walk(v):
+                if head(x) != "call" or x in seen:
+                    continue
+                seen.add(x)
+                f = strip(x[1])
+                dt, arg = None, None
+                if head(f) == "glob" and f[1] in ("numpy.asarray", "numpy.array") and x[2]:
+                    dt, arg = dict(x[3]).get("dtype") or (x[2][1] if len(x[2]) > 1 else None), x[2][0]
+                elif head(f) == "attr" and f[2] == "astype" and (x[2] or dict(x[3]).get("dtype")):
+                    dt, arg = (x[2][0] if x[2] else dict(x[3])["dtype"]), f[1]
+                if dt is None:
+                    continue
+                root, _ = nn.root(arg)
+                if nn.R._role_of(q, root) not in ("SEQS", "SEQS2"):
+                    continue
+                d = strip(dt)
+                fixed = (head(d) == "attr" and d[2] == "dtype") or (is_const(d) and isinstance(d[2], str) and d[2].lstrip("<>=|")[:1] in ("U", "S", "a") and d[2].lstrip("<>=|")[1:].isdigit())
+                if fixed:
+                    r.rep.ob(rule, q, False, "sequence containers keep their sequences whole (no conversion to a fixed-width string element type)", wh(r, q, s.func.node),
+                             expected="ensure_numpy(container) / np.asarray(container) without a fixed-width dtype", found=show(x, 100), key=f"fixed-width cast {show(d, 40)}")
+
+
 def run_fga(r, prop, cds, labels=None, floor=None):
     """FGA / IST obligations of property ``prop`` for the modes whose custom_distance class is in ``cds``."""
     nn = get_nn(r)
     n = 0
+    check_container_casts(r, prop + "-IST", nn)
     for mode in MODES:
         if mode[0] not in cds:
             continue
